@@ -207,6 +207,24 @@ def _is_sym(v):
     return isinstance(v, CrossHairValue)
 
 
+def _sym_repr(a):
+    """repr() of a symbolic str: "'" + a + "'" on the branch where every character is printable and neither a
+    quote nor a backslash (exactly CPython's repr there); otherwise an arbitrary quoted string."""
+    plain = True
+    for ch in a:
+        if ch == "'" or ch == chr(92) or not ch.isprintable():
+            plain = False
+            break
+    if plain:
+        return "'" + a + "'"
+    # escapes needed: over-approximate the escaped text by an arbitrary string (sound; a spurious
+    # counterexample that depends on it would not survive the concrete replay)
+    with NoTracing():
+        sp = context_statespace()
+        fresh = _core.proxy_for_type(str, "reprtext" + sp.uniq())
+    return "'" + fresh + "'"
+
+
 def _install_percent():
     prev = _core._PATCH_REGISTRATIONS[str.__mod__]
 
@@ -249,6 +267,11 @@ def _install_percent():
                             ok = False
                             break
                         plan.append(("str", a))
+                    elif conv == "r":
+                        if m.group("flags") or m.group("width") or not isinstance(a, _bl.AnySymbolicStr):
+                            ok = False
+                            break
+                        plan.append(("repr", a))
                     elif conv == "x":
                         w = m.group("width")
                         if not (isinstance(a, SymbolicInt) and m.group("flags") == "0" and w and int(w) % 2 == 0):
@@ -258,6 +281,9 @@ def _install_percent():
                     else:
                         ok = False
                         break
+                if ok and "%" not in self[pos:] and n != len(args) and not (len(args) == 1 and isinstance(args[0], dict)):
+                    # CPython: surplus arguments -> TypeError, without looking at their values
+                    raise TypeError("not all arguments converted during string formatting")
                 if ok and ("%" in self[pos:] or n != len(args)):
                     ok = False
                 if ok:
@@ -281,6 +307,8 @@ def _install_percent():
         for p in plan:
             if p[0] == "lit":
                 out = out + p[1]
+            elif p[0] == "repr":
+                out = out + _sym_repr(p[1])
             else:
                 out = out + str(p[1])
         return out
@@ -398,6 +426,69 @@ def _install_exact_div():
     SymbolicInt.__truediv__ = _truediv
 
 
+# ---------------------------------------------------------------- no premature realisation
+def _install_always_symbolic():
+    """CrossHair's argument factories fork ("premature realize") into a branch that picks concrete values for
+    an argument once earlier paths realised it; that branch enumerates an unbounded domain, repeats values
+    and prevents exhaustion.  Arguments of the basic types are always created symbolic here."""
+
+    def always(typ):
+        def make(creator, *type_args):
+            return typ(creator.varname, creator.pytype)
+
+        return make
+
+    for pytype, sym in (
+        (bool, _bl.SymbolicBool),
+        (int, _bl.SymbolicBoundedInt),
+        (float, _bl.make_float),
+        (str, _bl.LazyIntSymbolicStr),
+    ):
+        _core._SIMPLE_PROXIES[pytype] = always(sym)
+    ASSUMPTIONS.append("plugin: bool/int/float/str arguments are always created symbolic (CrossHair's heuristic 'premature realize' branch is disabled)")
+
+
+# ---------------------------------------------------------------- str(list) with symbolic element reprs
+def _install_str_of_containers():
+    """str(x) for an exact list/tuple/dict/set is repr(x) (CPython: these types do not define __str__);
+    route it through CrossHair's repr machinery, which tolerates element __repr__s that return symbolic strings."""
+    prev = _core._PATCH_REGISTRATIONS[str]
+
+    def _str_ext(*a, **kw):
+        if len(a) == 1 and not kw:
+            with NoTracing():
+                container = type(a[0]) in (list, tuple, dict, set, frozenset)
+            if container:
+                return repr(a[0])
+        with NoTracing():
+            return prev(*a, **kw)
+
+    _core._PATCH_REGISTRATIONS[str] = _str_ext
+
+
+# ---------------------------------------------------------------- open()/print() environment stubs
+def _install_env():
+    import builtins
+
+    from vf import vio
+
+    prev_open = _core._PATCH_REGISTRATIONS.get(open)
+    real_open = builtins.open
+
+    def _open(file, *a, **kw):
+        with NoTracing():
+            mem = isinstance(file, str) and file.startswith(vio.PREFIX)
+        if mem:
+            return vio.fake_open(real_open)(file, *a, **kw)
+        if prev_open is not None:
+            return prev_open(file, *a, **kw)
+        return real_open(file, *a, **kw)
+
+    _core._PATCH_REGISTRATIONS[open] = _open
+    _core._PATCH_REGISTRATIONS[print] = lambda *a, **kw: None
+    ASSUMPTIONS.append("environment: open() on /vf-mem/* paths is an in-memory file over (possibly symbolic) bytes; print() does nothing")
+
+
 # ---------------------------------------------------------------- record which repo functions ran symbolically
 ENCODED = set()
 
@@ -481,6 +572,9 @@ def install():
     _install_percent()
     _install_streq()
     _install_exact_div()
+    _install_always_symbolic()
+    _install_str_of_containers()
+    _install_env()
     force_ieee_floats(True)
     ASSUMPTIONS.append("float model: z3 Float64, round-nearest-even (PreciseIeeeSymbolicFloat) unless the claim says real_floats")
 
